@@ -566,6 +566,21 @@ impl<T: Dbg> Dbg for BTreeMap<String, T> {
     }
 }
 
+/// a map keyed by a derived newtype struct over String (JSON object keys are strings; the newtype is transparent)
+#[derive(Deserialize, Debug, PartialEq, Eq, PartialOrd, Ord)]
+struct UserId(String);
+
+impl<T: Dbg> Dbg for BTreeMap<UserId, T> {
+    fn dbg(&self, out: &mut Vec<String>) {
+        open(out, "map");
+        for (k, x) in self {
+            k.0.dbg(out);
+            x.dbg(out);
+        }
+        close(out);
+    }
+}
+
 impl Dbg for P {
     fn dbg(&self, out: &mut Vec<String>) {
         open(out, "struct");
@@ -716,7 +731,7 @@ fn case_de(fields: &[&str]) -> String {
         Ok(t) => t,
         Err(_) => return format!("BADCASE de {}", fields[1]),
     };
-    if ty > 34 {
+    if ty > 35 {
         return format!("BADCASE de {}", ty);
     }
     let var = parse_value(fields[2]);
@@ -757,6 +772,7 @@ fn case_de(fields: &[&str]) -> String {
         32 => run::<W>(var, val),
         33 => run::<F>(var, val),
         34 => run::<Vec<F>>(var, val),
+        35 => run::<BTreeMap<UserId, i32>>(var, val),
         _ => unreachable!(),
     }
 }
